@@ -103,7 +103,10 @@ class ExcelInPython:
         try:
             # parts a text leaves out are taken from the first of January of the current year, not from today ("Jan 2024" is the first
             # of that month on every day of the year)
-            return date_parser.parse(date, default=datetime.datetime(datetime.date.today().year, 1, 1))
+            parsed = date_parser.parse(date, default=datetime.datetime(datetime.date.today().year, 1, 1))
+            # a cell knows no time zones: a timestamp written with an offset ("2024-01-31T10:00:00+05:00", "... UTC") is its wall-clock
+            # reading - comparing it with the dates of other cells must not fail on "offset-naive and offset-aware"
+            return parsed.replace(tzinfo=None) if parsed.tzinfo is not None else parsed
         except (date_parser.ParserError, TypeError, ValueError, OverflowError):
             # a text that merely contains digits (an account number of 20 digits) is no date
             return None
